@@ -3,7 +3,7 @@ CONSTANTS
   Mutant = "execjson"
   SFmts = {"default", "json", "python-full", "bad"}
   TFmts = {"default", "python", "yaml", "toml", "bad"}
-  Indents = {"default", "0", "4"}
+  Indents = {"default", "0"}
   TxtIds = {"qstr1", "qstr2", "blit", "bboth", "bare", "baresx", "bbad", "bname", "texpo", "texpb", "advb", "advq", "advo"}
 INIT Init
 NEXT Next
